@@ -260,6 +260,57 @@ def object_roundtrip(R, ir, rng, seed, uid, tier):
                     R.nontrivial('roundtrip', delim, tuple(gen.shape(ft) for _, ft in gen.all_fields(ir, td['name'])), gen.vclass(v))
 
 
+def self_reference_scenario(R, seed):
+    """A class that contains itself (a linked list): every level of the chain is spelled in the query string and has to arrive.
+    (Kept out of the random universes: the flat notation has one fixed key table per class, so what happens to the deeper
+    levels is one mechanism, looked at here with a fixed input.)"""
+    from spyne import Application, Service, rpc, ComplexModel, Integer, Unicode
+    from spyne.model.complex import SelfReference
+    from spyne.protocol.http import HttpRpc
+    from spyne.protocol.json import JsonDocument
+    from spyne.server.wsgi import WsgiApplication
+    got = []
+    Node = type('FlatNode', (ComplexModel,), {'__namespace__': 'urn:vf:c03s', '_type_info': [('v', Integer), ('s', Unicode), ('next', SelfReference)]})
+
+    def walk(n):
+        out = []
+        while n is not None and len(out) < 10:
+            out.append((n.v, n.s))
+            n = n.next
+        return out
+
+    class S(Service):
+        @rpc(Node, _returns=Integer)
+        def chain(ctx, n):
+            got.append(walk(n))
+            return 1
+    for validator in (None, 'soft'):
+        app = Application([S], 'urn:vf:c03s', in_protocol=HttpRpc(validator=validator), out_protocol=JsonDocument())
+        w = WsgiApplication(app)
+        for depth in (1, 2, 3, 4):
+            want = [(i + 1, 'l%d' % i) for i in range(depth)]
+            pairs = []
+            for i in range(depth):
+                pre = 'n' + '.next' * i
+                pairs += [(pre + '.v', str(i + 1)), (pre + '.s', 'l%d' % i)]
+            del got[:]
+            R.evaluations += 1
+            R.count('self_reference_requests')
+            env, inp = drive.make_environ('GET', '/chain', refflat.query_string(pairs), b'', None)
+            r = drive.call_wsgi(w, env, inp)
+            case = {'seed': seed, 'scenario': 'self_reference', 'validator': validator, 'depth': depth, 'pairs': pairs}
+            if r.exc is not None:
+                R.violation('self-referencing class over HttpRpc: %r escaped' % r.exc, case, mech='escape:%s' % type(r.exc).__name__)
+            elif got == [want]:
+                R.nontrivial('self_reference', validator, depth, 'delivered')
+            elif got == [want[:1]] and depth >= 2:
+                R.violation('a chain of %d objects of a class that contains itself arrived as %r (status %s): the pairs that spell the '
+                            'members of the contained object are dropped' % (depth, got, r.status), case, mech='flat_self_reference_members_dropped')
+            else:
+                R.violation('a chain of %d objects of a class that contains itself arrived as %r (status %s)' % (depth, got, r.status), case,
+                            mech='flat_self_reference:other')
+
+
 def flat_diff_kind(d):
     s = d[0] if d else ''
     return 'none_vs_value' if ('None' in s) else 'items' if 'items' in s else 'value'
@@ -405,10 +456,17 @@ def run(spec, R):
         return
     for uid in range(spec['first'], spec['first'] + spec['count']):
         run_universe(R, spec['seed'], uid, spec['tier'])
+    if spec['first'] == 0:
+        self_reference_scenario(R, spec['seed'])
 
 
 def replay(v, R):
     c = v['repro']
+    if c.get('scenario') == 'self_reference':
+        self_reference_scenario(R, c['seed'])
+        for x in R.violations[:10]:
+            print('replayed:', x.get('mech'), x.get('what'))
+        return
     if c.get('uid') == 9000:
         run_ragged(R, {'seed': c['seed'], 'shard': 'ragged%d' % c['part'], 'part': c['part'], 'tier': 'thorough', 'mode': 'ragged'})
     else:
